@@ -549,6 +549,17 @@ func (c *c05) exec(t *testing.T, prog *hx.Program, dec *simrt.Decider, verbose b
 						// the appender may roll: what was the newest segment when the operation began is then an
 						// older one by the time the clean looks, and retention may take it
 						required = nil
+					} else if h.opts.Compact {
+						// ... and compaction may take from it what a later message with the same key supersedes at or
+						// below the high watermark (C08 judges which exactly): only what lies above the high
+						// watermark or carries no key is certain to stay
+						kept := required[:0:0]
+						for _, r := range required {
+							if r.off > h.hw || r.key == nil {
+								kept = append(kept, r)
+							}
+						}
+						required = kept
 					}
 					ar := simrt.NewRand(uint64(op.Arg(1, 1)))
 					c.concCleans++
